@@ -16,7 +16,16 @@ import (
 
 // C18: subscription teardown is safe under every interleaving.
 
-func init() { Registry["C18"] = scenTDN }
+func init() {
+	Registry["C18"] = func(s *sched.Sim, cfg Config, res *Result) {
+		// one run in six: subscriptions that end upstream while their connection stays open
+		if s.T.Choose(6) == 0 {
+			scenSUB(s, cfg, res)
+			return
+		}
+		scenTDN(s, cfg, res)
+	}
+}
 
 type tdnStep struct {
 	kind string
